@@ -22,6 +22,7 @@ type StateDef struct {
 	Add     []string `json:"add,omitempty"`
 	Remove  []string `json:"remove,omitempty"`
 	After   []string `json:"after,omitempty"`
+	Tags    []string `json:"tags,omitempty"`
 }
 
 // Schema is a generated schema: user states in VerifyStates order. Exception is
@@ -54,6 +55,7 @@ func (s Schema) Am() am.Schema {
 		r[st.Name] = am.State{
 			Auto: st.Auto, Multi: st.Multi,
 			Require: cp(st.Require), Add: cp(st.Add), Remove: cp(st.Remove), After: cp(st.After),
+			Tags: append([]string(nil), st.Tags...),
 		}
 	}
 	return r
